@@ -397,31 +397,44 @@ func TestCheck(t *testing.T) {
 	rep.Note("RSA-2048 generation is real but does not dominate (about 0.1 s per key); parsing and applying the 16 core CRDs (0.5 s per run) does. Fully initialised input stores are produced once per process and cloned.")
 
 	wrap := report.Bubble(t)
-	scs := []report.Scenario{
-		// One flat, high-arity first choice over both input families, so that
-		// the explorer's shards split the cases instead of replaying them.
-		{Name: "repeated-runs", Bound: 0, Wrap: wrap, Body: func(r *explore.Run) {
-			i := r.Free(len(icases)+len(pcases), "initial-store | kind*request*installed")
-			if i < len(icases) {
-				idempotenceBody(r, rep, "idempotence", icases[i], runs)
-				return
-			}
-			packagesBody(r, rep, "packages", pcases[i-len(icases)])
-		}},
-		{Name: "abort-and-repeat", Bound: 1, Wrap: wrap, Body: func(r *explore.Run) { faultBody(r, rep, "abort-and-repeat", fcases, th) }},
+	// Scenario names carry the tier: case lists and fault points differ per
+	// tier, and a violation artifact is replayed by scenario name + choices.
+	scenarios := func(th bool) []report.Scenario {
+		tier := map[bool]string{false: "quick", true: "thorough"}[th]
+		icases, pcases, fcases := idempotenceCases(th), packageCases(th), faultCases(th)
+		return []report.Scenario{
+			// One flat, high-arity first choice over both input families, so
+			// that the explorer's shards split the cases instead of
+			// replaying them.
+			{Name: "repeated-runs/" + tier, Bound: 0, Wrap: wrap, Body: func(r *explore.Run) {
+				i := r.Free(len(icases)+len(pcases), "initial-store | kind*request*installed")
+				if i < len(icases) {
+					idempotenceBody(r, rep, "idempotence", icases[i], runs)
+					return
+				}
+				packagesBody(r, rep, "packages", pcases[i-len(icases)])
+			}},
+			{Name: "abort-and-repeat/" + tier, Bound: 1, Wrap: wrap, Body: func(r *explore.Run) { faultBody(r, rep, "abort-and-repeat", fcases, th) }},
+		}
+	}
+	scs := scenarios(th)
+	if *report.ReplayF != "" {
+		scs = append(scenarios(false), scenarios(true)...)
 	}
 	// Debugging aid: VERIF_C20_ONLY=<scenario name> runs one scenario.
 	if only := os.Getenv("VERIF_C20_ONLY"); only != "" {
 		var keep []report.Scenario
 		for _, sc := range scs {
-			if sc.Name == only {
+			if strings.HasPrefix(sc.Name, only+"/") {
 				keep = append(keep, sc)
 			}
 		}
 		scs = keep
 		rep.Note("VERIF_C20_ONLY=%s: partial run", only)
 	}
-	rep.SelfCheck(t, scs[0], nil)
+	if *report.ReplayF == "" {
+		rep.SelfCheck(t, scs[0], nil)
+	}
 	rep.RunScenarios(t, scs)
 	rep.Write(t)
 	_ = fmt.Sprint
